@@ -133,3 +133,12 @@ func init() {
 		ruleJRN12(w, r, func(sc sinkCall) bool { return relPkg(sc.fi.Obj) == "pkg/auth" || relPkg(sc.fi.Obj) == "internal/server" })
 	})
 }
+
+func init() {
+	register("C19", "no HTTP request can crash the server, slip past limits or escape the data dir", func(w *World, r *Report) {
+		ruleWEB5(w, r)
+		ruleWEB6(w, r)
+		ruleWEB7(w, r)
+		ruleWEB8(w, r)
+	})
+}
